@@ -619,8 +619,9 @@ def marshalInitial (fb : Builder) (idx : Int) (planned : Bool) (frames : List (N
             | .frames qfs => qfs.isEmpty
             | _ => false
           if passThrough then
+            -- p.initialDatagramIdx++ on the pass-through path too: one Initial datagram has been built
             match qfBuild (fs.map fun f => QFrame.crypto f.1 f.2.1) cryptoData 0 with
-            | .ok p => .ok (p, idx)
+            | .ok p => .ok (p, idx + 1)
             | .err e => .err e
             | .panic => .panic
             | .wrap => .wrap
